@@ -87,7 +87,7 @@ class C02(Prop):
     ]
 
     def cases(self, rng, tier):
-        n = 1500 if tier == "quick" else 120000
+        n = 1500 if tier == "quick" else 90000
         for i in range(n):
             d = geo.rand_seg(rng)
             yield {"k": "seg", "seg": d, "M": gen.matrix_invertible(rng), "B": gen.matrix_invertible(rng)}
